@@ -27,6 +27,15 @@ for _vk in ("float", "int", "bool"):
 
 stepA = z3.Function("STEP_acc", V, V, I, V); stepC = z3.Function("STEP_cnt", V, V, I, I)
 FA = z3.Function("FA", I, I, V); FC = z3.Function("FC", I, I, I)
+# ---- concrete readings of the GENERIC records (uninterpreted step function on an opaque value sort), used ONLY by the bounded counterexample search (pyvc/cex.py): the
+#      step is read as ScalarFuncs.<name> on float64 (which is proved above to compute step_<name>), the specification symbols are re-declared on the float sort, and the
+#      native call receives the real reducer.  Nothing here takes part in the proofs.
+def _cex_step(name, extra=None, inst=None, native=None, mod="groupby_lib.groupby.numba", owner="ScalarFuncs"):
+    def specs():
+        a, c = SPEC.steps("float")[name]; d = {"STEP_acc": a, "STEP_cnt": c}
+        for k, (args, res) in (extra or {}).items(): d[k] = z3.Function(k + "_f", *[{"I": I, "F": F, "B": B}[x] for x in args + [res]]) if args is not None else res
+        return d
+    return {"inst": inst or {}, "specs": specs, "native": native if native is not None else {}, "step": f"func:{mod}:{owner}.{name}"}
 GBR_SPECS = {"STEP_acc": stepA, "STEP_cnt": stepC, "FA": FA, "FC": FC, "same": lambda a, b: a == b, "wrapn": lambda i, n: z3.If(i < 0, i + n, i)}
 def _unf(rowexpr, t):
     return (f"forall(k, 0, len(target), same(FA(k, {t} + 1), STEP_acc(FA(k, {t}), values[{rowexpr}], FC(k, {t})) if group_key[{rowexpr}] == k else FA(k, {t})) and "
@@ -38,7 +47,8 @@ register(NUMBA, "_group_by_reduce", "generic,indexer=None",
          {"requires": _GBR_REQ, "frozen": ["group_key", "values"], "nonneg_index": ["target", "count"],
           "loops": {0: {"iter": "range(len(group_key))", "invariant": ["forall(k, 0, len(target), same(target[k], FA(k, _it0)) and count[k] == FC(k, _it0))"], "unfold": [_unf("_it0", "_it0")]}},
           "ensures": ["forall(k, 0, len(target), same(result0[k], FA(k, len(group_key))) and result1[k] == FC(k, len(group_key)))"]},
-         specs=GBR_SPECS, props=("C01", "C04", "C06"))
+         specs=GBR_SPECS, props=("C01", "C04", "C06"),
+         cex=_cex_step("nansum", {"FA": (["I", "I"], "F")}, {"values": "arr:float:float64", "target": "arr:float:float64"}, {"reduce_func": "step"}))
 register(NUMBA, "_group_by_reduce", "generic,indexer=positions",
          {"group_key": "arr:int:int64", "values": "arr:opaque:V", "target": "arr:opaque:V", "reduce_func": "step:STEP", "indexer": "arr:int:int64", "check_in_bounds": "bool"},
          # positions follow array indexing: [-n, n), negatives wrap; out-of-range positions raise when checked, and must not occur when the check is switched off
@@ -49,7 +59,8 @@ register(NUMBA, "_group_by_reduce", "generic,indexer=positions",
                                                         "implies(check_in_bounds, forall(t, 0, _it1, -len(group_key) <= indexer[t] and indexer[t] < len(group_key)))"],
                         "unfold": [_unf("wrapn(indexer[_it1], len(group_key))", "_it1")]}},
           "ensures": ["forall(k, 0, len(target), same(result0[k], FA(k, len(indexer))) and result1[k] == FC(k, len(indexer)))"]},
-         specs=GBR_SPECS, props=("C01", "C04", "C05", "C06", "C18"))
+         specs=GBR_SPECS, props=("C01", "C04", "C05", "C06", "C18"),
+         cex=_cex_step("nanmin", {"FA": (["I", "I"], "F")}, {"values": "arr:float:float64", "target": "arr:float:float64"}, {"reduce_func": "step"}))
 
 # ----------------------------------------------------------------------------- _find_nth (forward: n >= 0, backward: n < 0; mask / no mask)
 # Cnt(k, t): number of accepted rows (key == k and selected) of group k among the first t VISITED rows; row(t) = t forward, len-1-t backward.
@@ -116,7 +127,8 @@ for _m in (False, True):
                           "forall(r, 0, len(group_key), implies(group_key[r] < 0, result0[r] == INIT()))", "result1 == exists(r, 0, len(group_key), group_key[r] < 0)"]
                          + (["forall(r, 0, len(group_key), implies(group_key[r] >= 0 and not mask[r], result0[r] == FA(group_key[r], r)))"] if _m else [])},
              specs={"chunkval": None, "STEP_acc": stepA, "STEP_cnt": stepC, "FA": FA, "FC": FC, "LS": LS, "off": off, "XV": XV, "INIT": lambda: INIT},
-             setup=_late_chunkval, extra_hyps=_step_fact, props=("C08", "C06", "C05"))
+             setup=_late_chunkval, extra_hyps=_step_fact, props=("C08", "C06", "C05"),
+             cex=_cex_step("nansum", {"FA": (["I", "I"], "F"), "XV": (["I"], "F"), "INIT": (None, (lambda: z3.Const("INIT_f", F)))}, {"values": "chunks:float:float64", "target": "arr:float:float64"}, {"reduce_func": "step"}))
 
 # ----------------------------------------------------------------------------- _rolling_sum_or_mean_1d (float, chunked, mask None, sum)
 HistF = z3.Function("HistF", I, I, F); Pre = z3.Function("Pre", I, I, R); NNc = z3.Function("NNc", I, I, I); XF = z3.Function("XF", I, F)
@@ -471,14 +483,15 @@ for _c in (False, True):
     for _y in (False, True):
         register(NUMBA, "reduce_array_pair", f"generic,counts={'array' if _c else 'None'},y_counts={'array' if _y else 'None'}",
                  {"x": "arr:opaque:V", "y": "arr:opaque:V", "reducer": "step:STEP", "counts": "arr:int:int64" if _c else "none", "y_counts": "arr:int:int64" if _y else "none"},
-                 _rap_contract(_c, _y), specs={"STEP_acc": stepA, "STEP_cnt": stepC}, props=("C03", "C04", "C12"))
+                 _rap_contract(_c, _y), specs={"STEP_acc": stepA, "STEP_cnt": stepC}, props=("C03", "C04", "C12"),
+                 cex=_cex_step("nanmin", None, {"x": "arr:float:float64", "y": "arr:float:float64"}, {"reducer": "step"}))
 class _RapCallee:
     """the contract a CALLER of reduce_array_pair sees: exactly the requires/ensures proved above for the instantiation selected by which optionals are None"""
     params = ["x", "y", "reducer", "counts", "y_counts"]
     def __call__(self, env):
         c = env.get("counts") is not None and env["counts"].kind != "none"; y = env.get("y_counts") is not None and env["y_counts"].kind != "none"
         k = _rap_contract(c, y)
-        return {"params": self.params, "defaults": {}, "returns": ["arr:opaque:V"], "result_len": ["len(x)"], "requires": k["requires"], "ensures": k["ensures"]}
+        return {"params": self.params, "defaults": {}, "returns": [f"arr:{env['x'].elem}:{env['x'].dtype}"], "result_len": ["len(x)"], "requires": k["requires"], "ensures": k["ensures"]}
 # combine_chunk_results_for_factorized_key (Python loop around the kernel; counts given): verified against the CONTRACT of reduce_array_pair.
 # MA/MC(k, b): merged partial of group k after the first b blocks:  Merge(s, (a, c)) = s if c == 0 else (STEP(s.acc, a, s.cnt).acc, s.cnt + c)  - the merge of L-merge.
 MA = z3.Function("MA", I, I, V); MC = z3.Function("MC", I, I, I); Gc = z3.Int("G")
@@ -494,7 +507,8 @@ register(NUMBA, "combine_chunk_results_for_factorized_key", "generic,counts=list
                         "lemmas": ["forall(k, 0, G(), chunk[k] == blkval(1 + _it0, k) and count[k] == blkcnt(1 + _it0, k))"]}},
           "ensures": ["len(result0) == G() and len(result1) == G()", "forall(k, 0, G(), result0[k] == MA(k, len(chunks)) and result1[k] == MC(k, len(chunks)))"]},
          specs={"STEP_acc": stepA, "STEP_cnt": stepC, "MA": MA, "MC": MC, "G": lambda: Gc, "blkval": None, "blkcnt": None}, setup=_late_combine,
-         callees={"reduce_array_pair": _RapCallee()}, props=("C03", "C04", "C12"), lemma_deps=("L-merge", "L-merge-step"))
+         callees={"reduce_array_pair": _RapCallee()}, props=("C03", "C04", "C12"), lemma_deps=("L-merge", "L-merge-step"),
+         cex=_cex_step("nanmin", {"MA": (["I", "I"], "F")}, {"chunks": "chunks:float:float64", "counts": "chunks:int:int64"}, {"reduce_func_name": "str:nanmin", "chunks": "list", "counts": "list"}))
 
 # ----------------------------------------------------------------------------- _rolling_shift_or_diff_1d (shift on an OPAQUE value sort, diff on floats; mask / no mask)
 # shift: the value sort is opaque (no arithmetic exists on it), so the postcondition "out[r] is Hist(k, A - w)" says the result is exactly an input element
@@ -529,7 +543,8 @@ for _shift in (True, False):
                             1: {"iter": "arr", "invariant": ["i == off(_it0) + _it1 - 1", "_it0 < len(values)", "_it1 <= clen_values(_it0)"] + _sh_main("(i + 1)", _m, _shift),
                                 "unfold": _unf, "lemmas": ["val == X(i + 1)"]}},
                   "ensures": [x.replace("out[", "result[") for x in _sh_main("len(group_key)", _m, _shift)[2:4]]},
-                 specs=_specs, setup=_late_chunkval, props=("C09", "C06", "C12", "C05"), lemma_deps=("L-cnt-bound",))
+                 specs=_specs, setup=_late_chunkval, props=("C09", "C06", "C12", "C05"), lemma_deps=("L-cnt-bound",),
+                 cex=({"inst": {"values": "chunks:float:float64", "null_value": "float"}, "specs": (lambda: {"HistV": z3.Function("HistV_f", I, I, F), "X": XF}), "native": {}} if _shift else None))
 
 # ---- diff on int64 values (what datetime64 / timedelta64 inputs run as: the integer view with null = MIN_INT; the result is in the input's own unit because nothing is
 #      converted: the buffers and the output are int64 arrays (array_elem) and the difference is the integer difference).  |x| <= 2^62 keeps x - y inside int64 (A-int64).
@@ -591,6 +606,9 @@ def _gfnn(kind):
                      "implies(result0 == -1, forall(l, 0, len(arr), isnullf(arr[l])))",
                      "implies(result0 >= 0, not isnullf(arr[result0]) and result1 == arr[result0] and forall(l, 0, result0, isnullf(arr[l])))"]}}
 _NBR_SPEC_F = {"OPF": OPF, "AccF": AccF, "HasF": HasF, "isnullf": lambda f: F.is_NaN(f)}
+# concrete reading for the counterexample search only: the binary reducer is NumbaReductionOps.sum (proved below to be fadd / integer +)
+_NBR_CEX_F = {"inst": {}, "specs": (lambda: {"OPF": fadd}), "native": {"reduce_func": "func:groupby_lib.util:NumbaReductionOps.sum"}}
+_NBR_CEX_I = {"inst": {}, "specs": (lambda: {"OPF": (lambda a, b: a + b)}), "native": {"reduce_func": "func:groupby_lib.util:NumbaReductionOps.sum"}}
 _NBR_SPEC_I = {"OPF": OPI, "AccF": AccI, "HasF": HasF, "isnullf": lambda x: x == MIN_INT}
 # (a) skipna, no initial value: fold of the reducer over the non-null elements in order; all null -> a null (arr[0]); requires a non-empty array
 for _vk, _dt, _sp in (("float", "float64", _NBR_SPEC_F), ("int", "int64", _NBR_SPEC_I)):
@@ -603,20 +621,20 @@ for _vk, _dt, _sp in (("float", "float64", _NBR_SPEC_F), ("int", "int64", _NBR_S
               "frozen": ["arr"],
               "loops": {0: {"iter": "range(start, len(arr))", "invariant": ["1 <= start and start <= len(arr)", "HasF(start + _it0)", "out == AccF(start + _it0)"]}},
               "ensures": ["ite(HasF(len(arr)), result == AccF(len(arr)), isnullf(result))"]},
-             specs=_sp, callees=_gfnn(_vk), props=("C20",), lemma_deps=("L-has",))
+             specs=_sp, callees=_gfnn(_vk), props=("C20",), lemma_deps=("L-has",), cex=_NBR_CEX_F if _vk == "float" else _NBR_CEX_I)
 # (b) skipna with an initial value (count uses this): fold from the initial value over the non-null elements; any length
 register(NANOPS, "_nb_reduce", "float,skipna,initial value", {"reduce_func": "bin:OPF", "arr": "arr:float:float64", "skipna": "const:True", "initial_value": "float"},
          {"requires": ["AccF(0) == initial_value", "forall(j, 0, len(arr), AccF(j + 1) == ite(isnullf(arr[j]), AccF(j), OPF(AccF(j), arr[j])))"], "frozen": ["arr"],
           "loops": {0: {"iter": "range(start, len(arr))", "invariant": ["start == 0", "out == AccF(_it0)"]}}, "ensures": ["result == AccF(len(arr))"]},
-         specs=_NBR_SPEC_F, props=("C20",))
+         specs=_NBR_SPEC_F, props=("C20",), cex=_NBR_CEX_F)
 # (c) no null skipping: a null first element is returned as is, otherwise the plain left fold; requires a non-empty array when no initial value is given
 register(NANOPS, "_nb_reduce", "float,no skipna,no initial value", {"reduce_func": "bin:OPF", "arr": "arr:float:float64", "skipna": "const:False", "initial_value": "none"},
          {"requires": ["len(arr) >= 1", "AccF(1) == arr[0]", "forall(j, 1, len(arr), AccF(j + 1) == OPF(AccF(j), arr[j]))"], "frozen": ["arr"],
           "loops": {1: {"iter": "range(start, len(arr))", "invariant": ["start == 1", "out == AccF(1 + _it1)"]}},
-          "ensures": ["ite(isnullf(arr[0]), result == arr[0], result == AccF(len(arr)))"]}, specs=_NBR_SPEC_F, props=("C20",))
+          "ensures": ["ite(isnullf(arr[0]), result == arr[0], result == AccF(len(arr)))"]}, specs=_NBR_SPEC_F, props=("C20",), cex=_NBR_CEX_F)
 register(NANOPS, "_nb_reduce", "float,no skipna,initial value", {"reduce_func": "bin:OPF", "arr": "arr:float:float64", "skipna": "const:False", "initial_value": "float"},
          {"requires": ["AccF(0) == initial_value", "forall(j, 0, len(arr), AccF(j + 1) == OPF(AccF(j), arr[j]))"], "frozen": ["arr"],
-          "loops": {1: {"iter": "range(start, len(arr))", "invariant": ["start == 0", "out == AccF(_it1)"]}}, "ensures": ["result == AccF(len(arr))"]}, specs=_NBR_SPEC_F, props=("C20",))
+          "loops": {1: {"iter": "range(start, len(arr))", "invariant": ["start == 0", "out == AccF(_it1)"]}}, "ensures": ["result == AccF(len(arr))"]}, specs=_NBR_SPEC_F, props=("C20",), cex=_NBR_CEX_F)
 
 # _get_first_non_null itself (float version = the module-level function; int version = first nested def of the numba overload)
 _GF_ENS = ["result0 == -1 or (0 <= result0 and result0 < len(arr))", "implies(result0 == -1, forall(l, 0, len(arr), isnullf(arr[l])))",
